@@ -241,6 +241,15 @@ def _state_W(res, rel, T, P=None, count=True):
     m = J.value("plain", v, None, v0, 0.0, "plain warn=False" + lab)
     if w:
         J.fail("plain", "warning-despite-warn-False", "%s(T=%r, warn=False) still emitted a range warning" % (rel, T), True, False)
+    # the documented T0 argument (value of T at 0 degC): the same temperature on a shifted scale
+    if rel == "water_density":
+        for T0 in (0.0, 273.16):
+            Tin = T - 273.15 + T0
+            v, w, _ = _call(res, lambda: f(Tin, T0=T0))
+            J.value("T0-override", v, None, v0, 1e-9, "T0=%r%s" % (T0, lab))
+            if not _is_exc(v) and not _near(T, lo, hi):
+                J.warning("T0-override", w, outside, "T0=%r%s" % (T0, lab))
+            res.symbols["T0=%r" % T0] += 1
     # default units
     pu = () if P is None else (P * u.bar,)
     v, w, _ = _call(res, lambda: f(T * u.K, *pu, units=u))
@@ -576,6 +585,8 @@ def _state_N(res, co, ci, z, T, count=True):
         ("constants-mode", "value", "conc plain numbers, constants+units", lambda: f(co, ci, z, T * u.K, const, u), refc),
         ("constants-mode", "value", "conc both in mM, constants+units", lambda: f(co * mM, ci * mM, z, T * u.K, const, u), refc),
         ("constants-mode", "mixed-concentration-units-value", "c_out in mM, c_in in M, constants+units", lambda: f(co * mM, ci / 1000 * u.molar, z, T * u.K, const, u), refc),
+        ("constants-mode", "mixed-concentration-units-value", "c_out in mM, c_in in M, constants without units", lambda: f(co * mM, ci / 1000 * u.molar, z, T * u.K, const), refc),
+        ("constants-mode", "mixed-concentration-units-value", "c_out in M, c_in in mM, constants without units", lambda: f(co / 1000 * u.molar, ci * mM, z, T * u.K, const), refc),
         ("scaled-units[T]", "value", "T in degR, constants+units", lambda: f(co, ci, z, T * 1.8 * u.rankine, const, u), refc),
     ]
     for mode, what, vl, call, rf in calls:
